@@ -145,10 +145,11 @@ EXPORT errno_t _memccpy_s_chk(void *restrict dest, rsize_t dmax,
     }
 
     /* the entire src was not copied, so zero the whole buffer */
-    handle_error((char *)dest, orig_dmax,
-                 "memccpy_s: not enough "
-                 "space for src",
-                 ESNOSPC);
+    mem_prim_set(dest, orig_dmax, 0);
+    MEMORY_BARRIER;
+    invoke_safe_str_constraint_handler("memccpy_s: not enough "
+                                       "space for src",
+                                       dest, ESNOSPC);
     return RCNEGATE(ESNOSPC);
 }
 #ifdef __KERNEL__
